@@ -11,8 +11,8 @@ def _replace():
 
 
 def run(ctx):
-    n = {"quick": 400, "thorough": 8000}[ctx.tier]
-    nl = {"quick": 300, "thorough": 6000}[ctx.tier]
+    n = {"quick": 320, "thorough": 8000}[ctx.tier]
+    nl = {"quick": 240, "thorough": 6000}[ctx.tier]
 
     def stages(ctx, mult, suffix, off):
         ctx.stage("c18" + suffix, "lib/controller/federation", "federation", ["C18/zz_verif_c18_test.go"], "TestVerifC18$",
